@@ -30,19 +30,30 @@ def one_pass(tier, esm, verdicts, stats):
     rt = os.path.join(env["CARGO_TARGET_DIR"], "release", "rt")
 
     # PREDICT
-    r = vlib.run_tlc("MC_Paths", "MC_Paths_%s.cfg" % tier, workers=12, env={"VERIF_CFG": cfg_path},
-                     timeout=3000, metatag="c08p" + tag)
-    if r.violated:
-        # the model of the code breaks the property: a genuine design defect or a wrong transcription;
-        # either way the replay below decides on the real code, so only note it.
-        verdicts.note("model verdict: TLC reports %s violated on the model (%s)" % (r.violated, tag))
-    else:
-        vlib.tlc_must_succeed(r, "MC_Paths " + tag)
-    cases = r.payloads("CASE")
+    cases, seen = [], set()
+    # (the thorough tier: the deep domain over few names, plus the quick domain - more names, among them the twins d / D)
+    for t_ in (["thorough", "quick"] if tier == "thorough" else [tier]):
+        cfg_t = cfg_path
+        if t_ != tier:
+            cfg_t = cfg_path + ".quick"
+            json.dump({"cwd": comps, "esm": esm, "fewbases": True}, open(cfg_t, "w"))
+        r = vlib.run_tlc("MC_Paths", "MC_Paths_%s.cfg" % t_, workers=12, env={"VERIF_CFG": cfg_t},
+                         timeout=3000, metatag="c08p" + tag)
+        if r.violated:
+            # the model of the code breaks the property: a genuine design defect or a wrong transcription;
+            # either way the replay below decides on the real code, so only note it.
+            verdicts.note("model verdict: TLC reports %s violated on the model (%s)" % (r.violated, tag))
+        else:
+            vlib.tlc_must_succeed(r, "MC_Paths " + tag)
+        for c_ in r.payloads("CASE"):
+            k_ = json.dumps(c_, sort_keys=True)
+            if k_ not in seen:
+                seen.add(k_)
+                cases.append(c_)
+        stats["states"] += r.distinct
+        stats["transitions"] += r.generated
     if not cases:
         raise vlib.ToolError("no cases produced by MC_Paths")
-    stats["states"] += r.distinct
-    stats["transitions"] += r.generated
     cases_path = os.path.join(vlib.TMP, "paths_cases_%s.ndjson" % tag)
     vlib.write_ndjson(cases_path, cases)
 
